@@ -1,11 +1,11 @@
 package an
 
 import (
-	"os"
 	"fmt"
 	"go/constant"
 	"go/token"
 	"go/types"
+	"os"
 	"sort"
 	"strings"
 
